@@ -199,7 +199,12 @@ class Ref:
     """Environment-based evaluation; `kludge` reproduces the known trailing-newline deviation (finding C04/#22)."""
 
     def __init__(self, lib, kludge=False, depth_limit=40, trim_first=None, switch_default_wins=False,
-                 opts=None):
+                 opts=None, leak=False):
+        # leak: variant describing a known deviation -- the calls inside the arguments of an unexpanded parser
+        # function stay placeholders; when such an argument value is substituted into a template body they are
+        # expanded there (late), otherwise they are printed as written
+        self.leak = leak
+        self.deferred = []
         self.lib = {}
         for name, body, pre in lib:
             self.lib[name] = body
@@ -284,10 +289,25 @@ class Ref:
         k = canon_key(self.ev(args[0], env, depth, in_body))
         if k in env:
             v = env[k]
+            if self.leak and "\1" in v:
+                v = re.sub("\1(\\d+)\1", lambda m: self.ev([self.deferred[int(m.group(1))]], None, depth, False), v)
             return v[:-1] if self.kludge and v.endswith("\n") else v
         if len(args) >= 2:
             return self.ev(args[1], env, depth, in_body)
         return "{{{" + str(k) + "}}}"
+
+    def defer(self, a):
+        out = []
+        for it in a:
+            if isinstance(it, int):
+                out.append(chr(it))
+            else:
+                self.deferred.append(it)
+                out.append("\1%d\1" % (len(self.deferred) - 1))
+        return "".join(out)
+
+    def finish(self, s):
+        return re.sub("\1(\\d+)\1", lambda m: "\0RAW" + render([self.deferred[int(m.group(1))]]) + "\0", s)
 
     def nl(self, t):
         return "\n" + t if t.startswith(("*", ";", ":", "#", "{|")) else t
@@ -310,6 +330,8 @@ class Ref:
             if fn in ("#if", "#ifeq", "#switch") and not self.parserfns:
                 if in_body:
                     self.unsupported = True      # raw arguments with substituted parameters: left to the model
+                if self.leak:
+                    return "{{" + fn + ":" + "|".join([first.lstrip()] + [self.defer(a) for a in args[1:]]) + "}}"
                 return "{{" + fn + ":" + "|".join([first.lstrip()] + ["\0RAW" + render(a) + "\0" for a in args[1:]]) + "}}"
             saved = self._ea_stack[-1]
             self._ea_stack[-1] = True          # parser function arguments are always fully expanded
